@@ -113,10 +113,13 @@ where
                         let c = buffer[fraction_cursor];
                         if let Some(digit) = char_to_digit_const(c, format.radix()) {
                             let idx = digit + 1;
-                            let c = digit_to_char_const(idx, format.radix());
-                            buffer[fraction_cursor] = c;
-                            fraction_cursor += 1;
-                            break;
+                            // Keep propagating the carry if the digit overflows.
+                            if idx < format.radix() {
+                                let c = digit_to_char_const(idx, format.radix());
+                                buffer[fraction_cursor] = c;
+                                fraction_cursor += 1;
+                                break;
+                            }
                         }
                     }
                     break;
